@@ -70,7 +70,7 @@ def unit(model, sizes):
         # the code returns |S| / D, the closed form is S / D: the sign test inside abs is decided
         # from Phi-monotonicity instances (S >= 0), after which both normal forms must coincide
         t0 = time.time()
-        P.resolve_ites([term(od[1])], extra_hyps=W.phi_monotone())
+        P.resolve_ites([term(od[1])], extra_hyps=W.phi_monotone(P))
         r = eq_rec(P, f"C12/{model}/predict_draw/closed-form@{shape}", term(od[1]), term(sd), fn, shape, rpd)
         r["time"] = round(time.time() - t0, 3)
         recs.append(r)
